@@ -49,11 +49,23 @@ def gen_case(rng: random.Random, tier: str) -> dict:
                 sessions[0]["keep_alive"] = rng.choice(["", "KEEP"])
             steps.append({"op": "edit", "paths": {"pick": [rng.randrange(1000)]}, "sessions": sessions})
         elif x < 0.84:
-            steps.append({"op": "rename", "src": rng.randrange(1000), "dst": rng.choice(gen.PAGE_NAMES) + "r" + str(rng.randrange(3))})
+            steps.append({"op": "rename", "src": rng.randrange(1000), "dst": rng.choice(gen.PAGE_NAMES) + "r" + str(rng.randrange(3)), "back": rng.random() < 0.35})
         elif x < 0.90:
             steps.append({"op": "move", "note": rng.randrange(1000), "dest": rng.randrange(1000), "marker": rng.choice([None, None, "x", "~"])})
         else:
             steps.append({"op": "day", "days": rng.choice([1, 1, 2, 31, 366])})
+    if rng.random() < 0.3:
+        # a page goes away, the index forgets it, and it comes back byte-identical
+        pg = rng.randrange(1000)
+        if rng.random() < 0.5:
+            trip = [{"op": "user", "edits": [{"e": "page_delete", "page": pg}]}, {"op": "reindex"}, {"op": "user", "edits": [{"e": "page_restore", "page": 0}]}]
+        else:
+            nm = rng.choice(gen.PAGE_NAMES) + "t" + str(rng.randrange(3))
+            trip = [{"op": "rename", "src": pg, "dst": nm}, {"op": "reindex"}, {"op": "rename", "src": 0, "dst": nm, "back": True}]
+        if rng.random() < 0.4:
+            trip.insert(2, {"op": "day", "days": 1})
+        at = rng.randrange(len(steps) + 1)
+        steps[at:at] = trip
     steps.append({"op": "reindex"})
     return {"world": world, "steps": steps, "day0": core.EPOCH_DAY + rng.randrange(0, 300)}
 
@@ -132,6 +144,10 @@ def execute(case: dict, scratch: str) -> dict:
                 continue
             src = pages[st["src"] % len(pages)]
             dst = st["dst"]
+            if st.get("back") and facts.get("last_rename") and facts["last_rename"][1] + ".zo" in pages:
+                # rename a page back to the name it had before (possibly after it was reindexed away)
+                dst, src = facts["last_rename"][0], facts["last_rename"][1] + ".zo"
+                rec.probe("page-renamed-back-to-its-old-name")
             if os.path.exists(os.path.join(sim.zdir, dst + ".zo")):
                 continue
             real = {"op": "rename", "src": src[:-3], "dst": dst}
@@ -140,6 +156,7 @@ def execute(case: dict, scratch: str) -> dict:
             if o.status == "ok":
                 rec.probe("page-renamed-by-file-rename")
                 facts["renamed"].add(src)
+                facts["last_rename"] = (src[:-3], dst)
             continue
         if op == "move":
             ci = ob.canon_index(sim.db_path)
@@ -172,6 +189,8 @@ def _edit_facts(reports: list[dict], facts: dict, rec: hist.Rec) -> None:
         if "deleted" in r:
             facts["deleted"].add(r["deleted"])
             rec.probe("page-deleted")
+        if "restored" in r:
+            rec.probe("deleted-page-restored-unchanged")
         if "renamed" in r:
             facts["renamed"].add(r["renamed"][0])
             rec.probe("page-renamed-by-mv")
